@@ -242,8 +242,8 @@ PROPS["C17"] = dict(
 )
 
 PROPS["C09"] = dict(
-    modules=["Sth.Props.C01", "Sth.Props.C08", "Sth.Props.C09", "Sth.Props.C09G"],
-    theorems=list(CORE_RL) + ['Sth.C09_mismatch_refused', 'Sth.C09_same_bits_no_translation', 'Sth.C09_translate_preserves_contents', 'Sth.C09_reads_preserved', 'Sth.C09_unspecified_ifs', 'Sth.C09_strip_total', 'Sth.C09_translate_preserves_contents_igc', 'Sth.C09_reads_preserved_igc', 'Sth.C09_mismatch_refused_igc', 'Sth.C09_same_bits_no_translation_igc', 'Sth.C09_translate_preserves_contents_gc', 'Sth.C09_translate_preserves_contents_gc_cid', 'Sth.C09_translate_keeps_gc_invariant', 'Sth.C09_mismatch_refused_gc', 'Sth.C09_same_bits_no_translation_gc'],
+    modules=["Sth.Props.C01", "Sth.Props.C08", "Sth.Props.C09", "Sth.Props.C09G", "Sth.Props.C09Crash"],
+    theorems=list(CORE_RL) + ['Sth.C09_mismatch_refused', 'Sth.C09_same_bits_no_translation', 'Sth.C09_translate_preserves_contents', 'Sth.C09_reads_preserved', 'Sth.C09_unspecified_ifs', 'Sth.C09_strip_total', 'Sth.C09_translate_preserves_contents_igc', 'Sth.C09_reads_preserved_igc', 'Sth.C09_mismatch_refused_igc', 'Sth.C09_same_bits_no_translation_igc', 'Sth.C09_translate_preserves_contents_gc', 'Sth.C09_translate_preserves_contents_gc_cid', 'Sth.C09_translate_keeps_gc_invariant', 'Sth.C09_mismatch_refused_gc', 'Sth.C09_same_bits_no_translation_gc', 'Sth.C09_translate_crash_safe_steps', 'Sth.C09_d13_window', 'Sth.C09_d13_recogniser_covers_window', 'Sth.C09_d13_recogniser_extra_step'],
     runs=[dict(engine="seq", quick=300, thorough=10000, extra=["-profile", "c09"], nontrivial=["rebucketed", "open-err:wrong-index-file-size", "open-err:wrong-primary-file-size"]),
           dict(engine="crash", quick=24, thorough=1000, extra=["-profile", "c09"], nontrivial=["translate-crash"])],
     shrink_budget=0,
@@ -260,18 +260,20 @@ PROPS["C09"] = dict(
 )
 
 PROPS["C10"] = dict(
-    modules=["Sth.Props.C10", "Sth.Props.C10b", "Sth.Props.C10c", "Sth.Props.C01", "Sth.Props.C08"],
+    modules=["Sth.Props.C10", "Sth.Props.C10b", "Sth.Props.C10c", "Sth.Props.C10d", "Sth.Props.C10e", "Sth.Props.C01", "Sth.Props.C08"],
     theorems=["Sth.C10_chunk_concat", "Sth.C10_chunk_shape", "Sth.C10_remap_correct", "Sth.C10_remap_reject", "Sth.C10_remap_total",
               "Sth.C10_upgrade_contents", "Sth.C10_upgrade_reads", "Sth.C10_upgrade_records_whole", "Sth.C10_upgrade_fsck",
               "Sth.C10_upgrade_resume_partial", "Sth.C10_completed_opens_plainly", "Sth.C10_D14_marker_window", "Sth.C10_D14_pool_lost",
-              "Sth.C10_upgrade_contents_bad", "Sth.C10_upgrade_bad_single", "Sth.C10_bad_entries_absent"] + list(CORE_RL),
-    runs=[dict(engine="seq", quick=250, thorough=5000, extra=["-profile", "c10"], nontrivial=["multi-chunk", "legacy-freelist", "legacy-bad-offset", "upgrade-bytes-agree"]),
+              "Sth.C10_upgrade_contents_bad", "Sth.C10_upgrade_bad_single", "Sth.C10_bad_entries_absent",
+              "Sth.C10_torn_primary", "Sth.C10_torn_prefix", "Sth.C10_torn_record_offset_bad", "Sth.C10_torn_index_refused", "Sth.C10_torn_index_repaired",
+              "Sth.C10_D31_regression", "Sth.C10_upgrade_translate", "Sth.C10_upgrade_translate_bad"] + list(CORE_RL),
+    runs=[dict(engine="seq", quick=250, thorough=5000, extra=["-profile", "c10"], nontrivial=["multi-chunk", "legacy-freelist", "legacy-bad-offset", "legacy-torn-tail", "upgrade-bytes-agree"]),
           dict(engine="crash", quick=16, thorough=500, extra=["-profile", "c10"], nontrivial=["at:upgrade", "at:remap"])],
     shrink_budget=0,
     crash_lines=True,
     rule="the harness writes stores in the legacy formats (version-2 single-file index with stale generations, unversioned single-file "
          "primary, pending freelist entries with linear offsets, records long gone from the index, entries with offsets beyond the primary) "
-         "from generated maps, and opens them with chunk limits {1,16,100,1024,default} for index and primary; after the upgrading open the "
+         "from generated maps (15% with a torn last record in the legacy primary), and opens them with chunk limits {1,16,100,1024,default} for index and primary; after the upgrading open the "
          "chunk file sizes and every key's remapped location are compared with the Lean pure functions (chunk, remapOffset), the full "
          "directory bytes are checked by the Lean fsck, every key is read back against the map, and the model is synchronised from the "
          "directory so that the ordinary history that follows (puts, removes, flushes, GC, reopen) is compared byte-for-byte again; the legacy "
